@@ -60,7 +60,10 @@ RULE = ("Case = element Z (1..18, small Z favoured) x mock AtomicData whose ioni
         "or integer-typed ones - np.arange, int32 / int64 arrays, a python int for a single point - with non-integer profile "
         "values; lists of python numbers are not generated: the code documents numpy arrays and reads a list as the (x, y) pair). "
         "match_plasma_neutrality: the other species carry 0-0.95 n_e of charge, and at a quarter of the points of a profile "
-        "1.05-3 n_e (over-neutral: only densities >= 0 is demanded there, the full relations at the other points). Every "
+        "1.05-3 n_e (over-neutral: only densities >= 0 is demanded there, the full relations at the other points). A species given as a "
+        "{charge: array | Function1D | Function2D} dictionary (match_plasma_neutrality, interpolators1d/2d_ and equilibrium_map3d_ "
+        "variants) has its keys inserted in a drawn order - ascending, reversed, random permutation, neutral last - and must give the "
+        "ndarray / ascending result (1e-12) with neutrality holding. Every "
         "interpolators1d_* / interpolators2d_* / equilibrium_map3d_* wrapper is compared with the direct array call given the same "
         "donor arguments, and is required to have been hit with a donor that moves a fraction by > 1e-3. Each point is classified a priori "
         "from the oracle side: main class iff 20 eps cond2(A) + 1e-13 <= 1e-6 and min exact fraction above that tolerance; only "
@@ -89,7 +92,10 @@ REQUIRED_LABELS = ["fractional:donor", "fractional:nodonor", "fractional:nt", "d
                    "repr:fv:arange", "repr:fv:int32", "repr:fv:int64"] + \
                   ["repr:donor:interpolators%s_%s" % (d, w) for d in ("1d", "2d")
                    for w in ("fractional", "from_elementdensity", "match_plasma_neutrality")] + \
-                  ["map3d:donor:equilibrium_map3d_%s" % w for w in ("fractional", "from_elementdensity", "match_plasma_neutrality")]
+                  ["map3d:donor:equilibrium_map3d_%s" % w for w in ("fractional", "from_elementdensity", "match_plasma_neutrality")] + \
+                  ["densities:dict-nonasc:match_plasma_neutrality", "repr:dict-nonasc:match_plasma_neutrality",
+                   "repr:dict-nonasc:interpolators1d_match_plasma_neutrality", "repr:dict-nonasc:interpolators2d_match_plasma_neutrality",
+                   "map3d:dict-nonasc:equilibrium_map3d_match_plasma_neutrality"]
 
 DONORS = {"H0": ("hydrogen", 0, False), "D0": ("deuterium", 0, True), "He0": ("helium", 0, False), "He1": ("helium", 1, False)}
 
@@ -376,6 +382,31 @@ def run_fractional(case, ctx):
 
 
 # ----------------------------------------------------------------------------------------------- sub-check: densities
+ORDERS = ["asc", "rev", "perm", "neutral_last"]
+_order_st = st.fixed_dictionaries({"kind": st.sampled_from(ORDERS), "perm": st.permutations(list(range(5)))})
+
+
+def _key_order(n, order):
+    """insertion order of the charge keys 0..n-1 of a species dictionary"""
+    kind = (order or {}).get("kind", "asc")
+    if kind == "rev":
+        return list(range(n - 1, -1, -1))
+    if kind == "perm":
+        return [k for k in order["perm"] if k < n]
+    if kind == "neutral_last":
+        return list(range(1, n)) + [0]
+    return list(range(n))
+
+
+def _as_dict(values, order, ctx, entry):
+    """{charge: values[charge]} inserted in the drawn key order; labels non-ascending dictionaries per entry point"""
+    keys = _key_order(len(values), order)
+    if keys != sorted(keys):
+        for e in entry:
+            ctx.label("dict-nonasc:" + e)
+    return {c: values[c] for c in keys}
+
+
 @st.composite
 def _species(draw, nsp):
     """Other species as weights w[s][q] (density = w n_e); total charge sum_s sum_q q w = qfrac <= 0.95."""
@@ -406,7 +437,7 @@ def strat_densities(draw):
     case = {"Z": z, "donor": donor, "rates": rates, "pts": pts,
             "nel": [draw(st.floats(-8.0, 0.3)) for _ in range(n)],          # log10(n_el / n_e)
             "species": draw(_species(draw(st.integers(0, 2)))),
-            "spec_as_dict": draw(st.booleans()),
+            "spec_as_dict": draw(st.booleans()), "sp_order": draw(_order_st),
             "scalar": draw(st.booleans()) if n == 1 else False}
     # per-point multiplier of the other species' densities: 1, or such that they carry 1.05-3 x the charge n_e (over-neutral
     # point: neutrality cannot hold, the bulk is documented to be clamped to zero there)
@@ -473,7 +504,7 @@ def run_densities(case, ctx):
         dens = np.array([[w[c] * qmul[k] * ne[k] for k in range(len(idx))] for c in range(len(w))])
         for c in range(len(w)):
             qtot = qtot + c * dens[c]
-        species.append({c: dens[c] for c in range(len(w))} if case.get("spec_as_dict") else dens)
+        species.append(_as_dict(dens, case.get("sp_order"), ctx, ["match_plasma_neutrality"]) if case.get("spec_as_dict") else dens)
     with ctx.cut("match_plasma_neutrality"), _quiet():
         got = IB.match_plasma_neutrality(data, el, species, float(ne[0]) if scalar else ne, float(te[0]) if scalar else te, *dargs)
     ctx.check(isinstance(got, dict) and sorted(got) == list(range(z + 1)), "neutrality:keys", lambda: "keys %r" % (sorted(got),))
@@ -591,7 +622,7 @@ def strat_repr(draw):
     nvar = draw(st.integers(1, 3))
     variants = [{"ne": draw(st.sampled_from(kinds)), "te": draw(st.sampled_from(kinds)), "nd": draw(st.sampled_from(kinds)),
                  "nel": draw(st.sampled_from(kinds)), "sp": draw(st.sampled_from(kinds + ["arrdict"])),
-                 "fv": draw(st.sampled_from(["tuple", "list"]))} for _ in range(nvar)]
+                 "fv": draw(st.sampled_from(["tuple", "list"])), "order": draw(_order_st)} for _ in range(nvar)]
     return {"Z": z, "donor": donor, "rates": rates, "shape": shape, "fv": fv, "fvtype": fvtype, "ne": ne, "te": te, "nd": nd,
             "nel": nel, "species": species, "variants": variants, "scalar_pts": draw(st.integers(0, 2))}
 
@@ -685,16 +716,18 @@ def run_repr(case, ctx):
         # continuous function of its input at the 1e-12 level: compare with the array call on exactly the sampled values
         vv = {n: (sample(obj[n]) if isinstance(obj[n], (Function1D, Function2D)) else vals[n]) for n in names}
         sp_in, sp_arr = [], []
+        entries = ["match_plasma_neutrality"] + (["interpolators1d_match_plasma_neutrality"] if shape_kind == "1d" else
+                                                 ["interpolators2d_match_plasma_neutrality"] if shape_kind == "2d" else [])
         for s, sv in zip(case["species"], spec_vals):
             if v["sp"] == "arr":
                 sp_in.append(sv)
                 sp_arr.append(sv)
             elif v["sp"] == "arrdict":
-                sp_in.append({c: sv[c] for c in range(len(s))})
+                sp_in.append(_as_dict(sv, v.get("order"), ctx, entries))
                 sp_arr.append(sv)
             else:
-                fns = {c: _mkfn(s[c], dim, v["sp"], fv) for c in range(len(s))}
-                sp_in.append(fns)
+                fns = [_mkfn(s[c], dim, v["sp"], fv) for c in range(len(s))]
+                sp_in.append(_as_dict(fns, v.get("order"), ctx, entries))
                 sp_arr.append(np.array([sample(fns[c]) for c in range(len(s))]))
         same_in = all(np.array_equal(vv[n], vals[n]) for n in names)
         same_sp = all(np.array_equal(a, b) for a, b in zip(sp_arr, spec_vals))
@@ -765,7 +798,8 @@ def run_repr(case, ctx):
         ctx.label("scalar-points")
         i = np.unravel_index(k * (len(grid) - 1) // max(1, case["scalar_pts"] - 1) if case["scalar_pts"] > 1 else 0, shape)
         ds = (donor, float(vals["nd"][i]), q) if donor is not None else ()
-        sp_s = [{c: np.array([sv[(c,) + tuple(i)]]) for c in range(sv.shape[0])} for sv in spec_vals]
+        sp_s = [_as_dict([np.array([sv[(c,) + tuple(i)]]) for c in range(sv.shape[0])], case["variants"][0].get("order"), ctx,
+                         ["match_plasma_neutrality(scalar)"]) for sv in spec_vals]
         with ctx.cut("scalar calls"), _quiet():
             g_f = _stack(IB.fractional_abundance(data, el, float(vals["ne"][i]), float(vals["te"][i]), *ds), z, (1,), ctx, "frac-scalar")
             g_d = _stack(IB.from_elementdensity(data, el, float(vals["nel"][i]), float(vals["ne"][i]), float(vals["te"][i]), *ds), z, (1,), ctx, "den-scalar")
@@ -802,10 +836,10 @@ def strat_map3d(draw):
     def prof(v0, amp):
         return {"k": "exp", "v0": v0, "x0": 0.0, "y0": 0.0, "c1": draw(st.floats(-amp, amp)) * math.log(10.0) / ext, "c2": 0.0}
     nd = prof(rates["ne0"] * 10.0 ** draw(st.floats(-2.0, 0.7)), 0.5) if donor is not None else {"k": "zero"}
-    species = [[dict(prof(rates["ne0"], 0.0), mul=wc) for wc in w] for w in draw(_species(draw(st.integers(0, 1))))]
+    species = [[dict(prof(rates["ne0"], 0.0), mul=wc) for wc in w] for w in draw(_species(draw(st.sampled_from([0, 1, 1, 2]))))]
     return {"Z": z, "donor": donor, "rates": rates, "psin": psin, "ne": prof(rates["ne0"], 0.4), "te": prof(rates["te0"], 0.4),
             "nd": nd, "nel": prof(rates["ne0"] * 1e-3, 1.0), "species": species,
-            "as_fn": draw(st.booleans()),
+            "as_fn": draw(st.booleans()), "sp": draw(st.sampled_from(["arr", "arrdict", "py"])), "sp_order": draw(_order_st),
             "rz": [[draw(st.floats(0.0, 1.0)), draw(st.floats(0.0, 1.0)), draw(st.floats(0.0, 6.2))] for _ in range(6)]}
 
 
@@ -832,10 +866,17 @@ def run_map3d(case, ctx):
         r_frac = _stack(IB.fractional_abundance(data, el, vals["ne"], vals["te"], *dargs), z, psin.shape, ctx, "frac")
         r_den = _stack(IB.from_elementdensity(data, el, vals["nel"], vals["ne"], vals["te"], *dargs), z, psin.shape, ctx, "den")
         r_neu = _stack(IB.match_plasma_neutrality(data, el, list(spec_vals), vals["ne"], vals["te"], *dargs), z, psin.shape, ctx, "neu")
+    sp_in = []
+    for sp, sv in zip(case["species"], spec_vals):      # species as ndarray, or as {charge: array | Function1D} in the drawn key order
+        if case.get("sp", "arr") == "arr":
+            sp_in.append(sv)
+        else:
+            items = list(sv) if case["sp"] == "arrdict" else [_mkfn(sc, 1, "py", fv) for sc in sp]
+            sp_in.append(_as_dict(items, case.get("sp_order"), ctx, ["equilibrium_map3d_match_plasma_neutrality"]))
     with ctx.cut("equilibrium_map3d_*"), _quiet():
         m_f = IB.equilibrium_map3d_fractional(data, el, eq, psin, rep("ne"), rep("te"), *dv)
         m_d = IB.equilibrium_map3d_from_elementdensity(data, el, eq, psin, rep("nel"), rep("ne"), rep("te"), *dv)
-        m_n = IB.equilibrium_map3d_match_plasma_neutrality(data, el, eq, psin, list(spec_vals), rep("ne"), rep("te"), *dv)
+        m_n = IB.equilibrium_map3d_match_plasma_neutrality(data, el, eq, psin, sp_in, rep("ne"), rep("te"), *dv)
     r0, r1 = eq.r_range
     z0, z1 = eq.z_range
     n_in = 0
